@@ -86,6 +86,10 @@ QueryOK ==
   a.alive /\
   CASE E.kind = "incl"  -> val[K].alive /\ E.ret = TF(IF kindv = "fa" THEN FAIncl(NfaOf(a), NfaOf(val[K])) ELSE Incl(AutOf(a), AutOf(val[K])))
     [] E.kind = "empty" -> E.ret = TF(Empty(AutOf(a)))
+    \* downward simulation (n = 3): judged when the states are within 0..2, on the states that occur
+    [] E.kind = "simdown" -> LET X == AutOf(a)  Q == States(X) IN
+                             (Q \subseteq {0, 1, 2}) =>
+                               \A q \in Q : \A r \in Q : E.ret[q + 1][r + 1] = (IF <<q, r>> \in DownSim(X) THEN 1 ELSE 0)
     [] OTHER -> FALSE
 
 (***************************************************************************)
